@@ -444,9 +444,35 @@ fn list_inhabited(
                 }
             }
 
+            // A sufficiently long list with an element outside nt.items is not a member of this negated
+            // type, but it must escape the remaining negated types as well. Positions beyond every
+            // remaining prefix are interchangeable, so it is enough to try the positions up to there.
             let diff = items.diff(&nt.items)?;
             if let IsEmptyStatus::NotEmpty = diff.is_empty_status(builder)? {
-                return Ok(ListInhabited::Yes);
+                let mut max_len = len;
+                let mut rest = neg.next.clone();
+                while let Some(c) = rest {
+                    let l = match c.atom {
+                        Atom::List(a) => builder.get_list_atomic(a).prefix_items.len(),
+                        Atom::Set(a) => builder.get_set_atomic(a).prefix_items.len(),
+                        _ => unreachable!(),
+                    };
+                    if l > max_len {
+                        max_len = l;
+                    }
+                    rest = c.next.clone();
+                }
+                for j in len..=max_len {
+                    let mut longer = prefix_items.clone();
+                    for _i in len..j {
+                        longer.push(items.clone());
+                    }
+                    longer.push(diff.clone());
+                    if let ListInhabited::Yes = list_inhabited(&mut longer, items, &neg.next, builder)?
+                    {
+                        return Ok(ListInhabited::Yes);
+                    }
+                }
             }
 
             // This is correct for length 0, because we know that the length of the
